@@ -22,7 +22,10 @@ func oracle(ops, outs []string) *corr.Violation {
 	validFrom := map[string]map[int]bool{} // block -> miners with a valid ticket delivered
 	attached := map[string][]string{}
 	unverifiedInBlock := map[string]bool{} // an attached, never verified, invalid ticket may sit in the chain copy
+	dupsInMsg := 0
 	note := func(blk string, entries []string) (invalid int) {
+		seen := map[string]bool{}
+		dupsInMsg = 0
 		for _, e := range entries {
 			f := strings.Split(e, ":")
 			if len(f) != 2 || len(f[0]) < 2 {
@@ -37,8 +40,12 @@ func oracle(ops, outs []string) *corr.Violation {
 					}
 					validFrom[blk][j] = true
 					ok = true
+					if seen[f[0]] { // a repeated verifier adds nothing
+						dupsInMsg++
+					}
 				}
 			}
+			seen[f[0]] = true
 			if !ok {
 				invalid++
 			}
@@ -81,7 +88,7 @@ func oracle(ops, outs []string) *corr.Violation {
 			if len(w) == 2 {
 				blk = w[1]
 				invalidInMsg = note(blk, attached[blk])
-				if w[0] != "nblock" && invalidInMsg > 0 {
+				if w[0] != "nblock" && invalidInMsg+dupsInMsg > 0 {
 					unverifiedInBlock[blk] = true
 				}
 			}
@@ -107,12 +114,14 @@ func oracle(ops, outs []string) *corr.Violation {
 		if treated && len(validFrom[blk]) < thr {
 			what := fmt.Sprintf("block %s is treated as notarized; only %d distinct miners delivered a valid ticket (threshold %d)", blk, len(validFrom[blk]), thr)
 			switch {
-			case w[0] == "propose":
-				return mk(i, "proposal-attached-tickets-counted-unverified", what)
-			case (w[0] == "notarization" || w[0] == "nblock") && invalidInMsg > 0 && !(w[0] == "notarization" && unverifiedInBlock[blk] && false):
+			case (w[0] == "notarization" || w[0] == "nblock") && invalidInMsg == 0 && dupsInMsg > 0 && !unverifiedInBlock[blk]:
+				return mk(i, "duplicate-tickets-counted", what)
+			case (w[0] == "notarization" || w[0] == "nblock") && invalidInMsg > 0 && !unverifiedInBlock[blk]:
+				// the message itself carried invalid tickets and the aggregate check let them through (C32)
 				return mk(i, "cancelling-tickets-accepted", what)
 			case unverifiedInBlock[blk]:
-				return mk(i, "attached-tickets-counted-later-unverified", what)
+				// tickets attached to a received block object were merged into the block and counted without verification
+				return mk(i, "attached-tickets-counted-unverified", what)
 			default:
 				return mk(i, "notarized-without-enough-valid-tickets", what)
 			}
